@@ -5,18 +5,21 @@ package main
 import (
 	"fmt"
 	"os"
+	"sort"
 )
 
+// commands is filled by the init functions of the files that implement the sub-commands.
+var commands = map[string]func(){}
+
 func main() {
-	if len(os.Args) < 2 {
-		fmt.Fprintln(os.Stderr, "usage: harness <command>")
+	if len(os.Args) < 2 || commands[os.Args[1]] == nil {
+		var names []string
+		for k := range commands {
+			names = append(names, k)
+		}
+		sort.Strings(names)
+		fmt.Fprintln(os.Stderr, "usage: harness <command> ...; commands:", names)
 		os.Exit(2)
 	}
-	switch os.Args[1] {
-	case "compile":
-		cmdCompile()
-	default:
-		fmt.Fprintln(os.Stderr, "unknown command", os.Args[1])
-		os.Exit(2)
-	}
+	commands[os.Args[1]]()
 }
